@@ -1,0 +1,117 @@
+//go:build verif
+
+// Contracts for the exovc verifier (/verif). Comment-only: with the tag off this file is not part
+// of the package, with the tag on it declares nothing.
+package keeper
+
+// ---------------------------------------------------------------------------------------------
+// Store vocabulary of the assets module. A missing row counts as the all-zero row.
+
+//@ define dz(x)  = ite(isnil(x), 0, val(x))
+//@ define uflow(v, d) = d < 0 && v + d < 0
+//@ define stakerKey(s, a)     = cat(g("x/assets/types.KeyPrefixReStakerAssetInfos"), join(s, a))
+//@ define stakerRaw(c, s, a)  = get(c, "assets", stakerKey(s, a))
+//@ define stakerInfo(c, s, a) = unm["x/assets/types.StakerAssetInfo"](stakerRaw(c, s, a))
+//@ define stDeposit(c, s, a)  = ite(stakerRaw(c, s, a) == nil, 0, val(stakerInfo(c, s, a).TotalDepositAmount))
+//@ define stWithdrawable(c, s, a) = ite(stakerRaw(c, s, a) == nil, 0, val(stakerInfo(c, s, a).WithdrawableAmount))
+//@ define stPending(c, s, a)  = ite(stakerRaw(c, s, a) == nil, 0, val(stakerInfo(c, s, a).PendingUndelegationAmount))
+
+//@ define opKey(o, a)      = cat(g("x/assets/types.KeyPrefixOperatorAssetInfos"), join(o, a))
+//@ define opRaw(c, o, a)   = get(c, "assets", opKey(o, a))
+//@ define opInfo(c, o, a)  = unm["x/assets/types.OperatorAssetInfo"](opRaw(c, o, a))
+//@ define opTotal(c, o, a)   = ite(opRaw(c, o, a) == nil, 0, val(opInfo(c, o, a).TotalAmount))
+//@ define opPending(c, o, a) = ite(opRaw(c, o, a) == nil, 0, val(opInfo(c, o, a).PendingUndelegationAmount))
+//@ define opShare(c, o, a)   = ite(opRaw(c, o, a) == nil, 0, val(opInfo(c, o, a).TotalShare))
+//@ define opSelf(c, o, a)    = ite(opRaw(c, o, a) == nil, 0, val(opInfo(c, o, a).OperatorShare))
+
+//@ define assetKey(a)      = cat(g("x/assets/types.KeyPrefixReStakingAssetInfo"), a)
+//@ define assetRaw(c, a)   = get(c, "assets", assetKey(a))
+//@ define assetInfo(c, a)  = unm["x/assets/types.StakingAssetInfo"](assetRaw(c, a))
+//@ define assetTotal(c, a) = val(assetInfo(c, a).StakingTotalAmount)
+
+// ---------------------------------------------------------------------------------------------
+// C01: per-row all-or-nothing updates with exact deltas; no field ever goes below zero.
+
+//@ func (Keeper).UpdateStakerAssetState
+//@   modifies get(ctx, "assets", stakerKey(stakerID, assetID))
+//@   ensures[C09.usas.atomic] err != nil ==> state(ctx) == old(state(ctx))
+//@   ensures[C01.usas.err]    (err != nil) <==> (uflow(old(stDeposit(ctx, stakerID, assetID)), dz(changeAmount.TotalDepositAmount)) ||
+//@                              uflow(old(stWithdrawable(ctx, stakerID, assetID)), dz(changeAmount.WithdrawableAmount)) ||
+//@                              uflow(old(stPending(ctx, stakerID, assetID)), dz(changeAmount.PendingUndelegationAmount)))
+//@   ensures[C01.usas.delta]  err == nil ==> stakerRaw(ctx, stakerID, assetID) != nil &&
+//@                              stDeposit(ctx, stakerID, assetID) == old(stDeposit(ctx, stakerID, assetID)) + dz(changeAmount.TotalDepositAmount) &&
+//@                              stWithdrawable(ctx, stakerID, assetID) == old(stWithdrawable(ctx, stakerID, assetID)) + dz(changeAmount.WithdrawableAmount) &&
+//@                              stPending(ctx, stakerID, assetID) == old(stPending(ctx, stakerID, assetID)) + dz(changeAmount.PendingUndelegationAmount)
+//@   ensures[C01.usas.nonneg] err == nil && old(stDeposit(ctx, stakerID, assetID)) >= 0 && old(stWithdrawable(ctx, stakerID, assetID)) >= 0 && old(stPending(ctx, stakerID, assetID)) >= 0 ==>
+//@                              stDeposit(ctx, stakerID, assetID) >= 0 && stWithdrawable(ctx, stakerID, assetID) >= 0 && stPending(ctx, stakerID, assetID) >= 0
+
+//@ func (Keeper).UpdateOperatorAssetState
+//@   modifies get(ctx, "assets", opKey(addr_string(ityp(operatorAddr), unbox_bytes(ipay(operatorAddr))), assetID))
+//@   ensures[C09.uoas.atomic] err != nil ==> state(ctx) == old(state(ctx))
+//@   ensures[C01.uoas.err]    (err != nil) <==> (uflow(old(opTotal(ctx, opStr(operatorAddr), assetID)), dz(changeAmount.TotalAmount)) ||
+//@                              uflow(old(opPending(ctx, opStr(operatorAddr), assetID)), dz(changeAmount.PendingUndelegationAmount)) ||
+//@                              uflow(old(opShare(ctx, opStr(operatorAddr), assetID)), dz(changeAmount.TotalShare)) ||
+//@                              uflow(old(opSelf(ctx, opStr(operatorAddr), assetID)), dz(changeAmount.OperatorShare)))
+//@   ensures[C01.uoas.delta]  err == nil ==> opRaw(ctx, opStr(operatorAddr), assetID) != nil &&
+//@                              opTotal(ctx, opStr(operatorAddr), assetID) == old(opTotal(ctx, opStr(operatorAddr), assetID)) + dz(changeAmount.TotalAmount) &&
+//@                              opPending(ctx, opStr(operatorAddr), assetID) == old(opPending(ctx, opStr(operatorAddr), assetID)) + dz(changeAmount.PendingUndelegationAmount) &&
+//@                              opShare(ctx, opStr(operatorAddr), assetID) == old(opShare(ctx, opStr(operatorAddr), assetID)) + dz(changeAmount.TotalShare) &&
+//@                              opSelf(ctx, opStr(operatorAddr), assetID) == old(opSelf(ctx, opStr(operatorAddr), assetID)) + dz(changeAmount.OperatorShare)
+//@   ensures[C01.uoas.nonneg] err == nil && old(opTotal(ctx, opStr(operatorAddr), assetID)) >= 0 && old(opPending(ctx, opStr(operatorAddr), assetID)) >= 0 &&
+//@                              old(opShare(ctx, opStr(operatorAddr), assetID)) >= 0 && old(opSelf(ctx, opStr(operatorAddr), assetID)) >= 0 ==>
+//@                              opTotal(ctx, opStr(operatorAddr), assetID) >= 0 && opPending(ctx, opStr(operatorAddr), assetID) >= 0 &&
+//@                              opShare(ctx, opStr(operatorAddr), assetID) >= 0 && opSelf(ctx, opStr(operatorAddr), assetID) >= 0
+
+//@ define opStr(a) = addr_string(ityp(a), unbox_bytes(ipay(a)))
+
+//@ func (Keeper).UpdateStakingAssetTotalAmount
+//@   modifies get(ctx, "assets", assetKey(assetID))
+//@   ensures[C09.usata.atomic] err != nil ==> state(ctx) == old(state(ctx))
+//@   ensures[C01.usata.err]    (err != nil) <==> (isnil(changeAmount) || old(assetRaw(ctx, assetID)) == nil || uflow(old(assetTotal(ctx, assetID)), val(changeAmount)))
+//@   ensures[C01.usata.delta]  err == nil ==> assetRaw(ctx, assetID) != nil && assetTotal(ctx, assetID) == old(assetTotal(ctx, assetID)) + val(changeAmount)
+//@   ensures[C01.usata.rest]   err == nil ==> assetInfo(ctx, assetID).AssetBasicInfo == old(assetInfo(ctx, assetID).AssetBasicInfo)
+
+//@ func (Keeper).IsStakingAsset
+//@   ensures[C01.isa.spec] result == (assetRaw(ctx, assetID) != nil)
+
+//@ func (Keeper).IsOperatorAssetExist
+//@   ensures[C01.ioae.spec] result == (opRaw(ctx, opStr(operatorAddr), assetID) != nil)
+
+//@ func (Keeper).GetOperatorSpecifiedAssetInfo
+//@   ensures[C01.gosai.spec] (err != nil) <==> (opRaw(ctx, opStr(operatorAddr), assetID) == nil)
+//@   ensures[C01.gosai.val]  err == nil ==> info != nil && *info == opInfo(ctx, opStr(operatorAddr), assetID)
+//@   ensures[C01.gosai.nil]  err != nil ==> info == nil
+
+// ---------------------------------------------------------------------------------------------
+// PerformDepositOrWithdraw (C01 deltas, C03 withdrawal acceptance, C09 atomicity)
+
+//@ define pdwStaker(p) = ite(p.StakerAddress == nil, "", joinsep("_", hexenc(p.StakerAddress), hexu64(p.ClientChainLzID)))
+//@ define pdwAsset(p)  = ite(p.AssetsAddress == nil, "", joinsep("_", hexenc(p.AssetsAddress), hexu64(p.ClientChainLzID)))
+//@ define isDeposit(a)  = a == g("x/assets/types.DepositLST") || a == g("x/assets/types.DepositNST")
+//@ define isWithdraw(a) = a == g("x/assets/types.WithdrawLST") || a == g("x/assets/types.WithdrawNST")
+//@ define nativeID() = g("x/assets/types.ExocoreAssetID")
+
+// INV(C01): the published staking total of an asset is the sum of the stakers' total deposits, all of
+// which are >= 0, hence >= each single one (sum argument: DESIGN.md §3.3; instance needed here).
+//@ func (Keeper).PerformDepositOrWithdraw
+//@   requires params != nil && !isnil(params.OpAmount)
+//@   requires stDeposit(ctx, pdwStaker(params), pdwAsset(params)) >= 0 && stWithdrawable(ctx, pdwStaker(params), pdwAsset(params)) >= 0 && stPending(ctx, pdwStaker(params), pdwAsset(params)) >= 0
+//@   requires assetRaw(ctx, pdwAsset(params)) != nil ==> assetTotal(ctx, pdwAsset(params)) >= stDeposit(ctx, pdwStaker(params), pdwAsset(params))
+//@   modifies get(ctx, "assets", stakerKey(pdwStaker(params), pdwAsset(params))), get(ctx, "assets", assetKey(pdwAsset(params)))
+//@   ensures[C09.pdw.atomic]   err != nil ==> state(ctx) == old(state(ctx))
+//@   ensures[C01.pdw.deposit]  err == nil && isDeposit(params.Action) && pdwAsset(params) != nativeID() ==>
+//@        stWithdrawable(ctx, pdwStaker(params), pdwAsset(params)) == old(stWithdrawable(ctx, pdwStaker(params), pdwAsset(params))) + val(params.OpAmount) &&
+//@        stDeposit(ctx, pdwStaker(params), pdwAsset(params)) == old(stDeposit(ctx, pdwStaker(params), pdwAsset(params))) + val(params.OpAmount) &&
+//@        stPending(ctx, pdwStaker(params), pdwAsset(params)) == old(stPending(ctx, pdwStaker(params), pdwAsset(params))) &&
+//@        assetTotal(ctx, pdwAsset(params)) == old(assetTotal(ctx, pdwAsset(params))) + val(params.OpAmount)
+//@   ensures[C01.pdw.withdraw] err == nil && isWithdraw(params.Action) && pdwAsset(params) != nativeID() ==>
+//@        stWithdrawable(ctx, pdwStaker(params), pdwAsset(params)) == old(stWithdrawable(ctx, pdwStaker(params), pdwAsset(params))) - val(params.OpAmount) &&
+//@        stDeposit(ctx, pdwStaker(params), pdwAsset(params)) == old(stDeposit(ctx, pdwStaker(params), pdwAsset(params))) - val(params.OpAmount) &&
+//@        stPending(ctx, pdwStaker(params), pdwAsset(params)) == old(stPending(ctx, pdwStaker(params), pdwAsset(params))) &&
+//@        assetTotal(ctx, pdwAsset(params)) == old(assetTotal(ctx, pdwAsset(params))) - val(params.OpAmount) &&
+//@        stWithdrawable(ctx, pdwStaker(params), pdwAsset(params)) >= 0
+//@   ensures[C01.pdw.kinds]    err == nil ==> val(params.OpAmount) >= 0 && (isDeposit(params.Action) || isWithdraw(params.Action)) && old(assetRaw(ctx, pdwAsset(params))) != nil
+//@   ensures[C01.pdw.native]   err == nil && pdwAsset(params) == nativeID() ==> state(ctx) == old(state(ctx))
+//@   ensures[C03.pdw.accept]   isWithdraw(params.Action) && val(params.OpAmount) >= 0 && old(assetRaw(ctx, pdwAsset(params))) != nil &&
+//@        val(params.OpAmount) <= old(stWithdrawable(ctx, pdwStaker(params), pdwAsset(params))) &&
+//@        old(stWithdrawable(ctx, pdwStaker(params), pdwAsset(params))) <= old(stDeposit(ctx, pdwStaker(params), pdwAsset(params))) ==> err == nil
